@@ -424,6 +424,33 @@ def axis_invariance(ctx):
             rep.bad("C28.R6", C, v.node, f"branch `{test}`: {v.msg} under scaling of the URDF axis", f"{URDF}:{getattr(v.node, 'lineno', '?')}")
 
 
+def parse_not_memoised(ctx, rule="C28.R15"):
+    """'importing yields ... the described robot': a parse result remembered by file path is the description the file held at the first import.
+    Regenerated xacro output, a parameter study or a harness that writes every robot to one scratch file then get a self-consistent system of
+    another robot (joint types, origins, masses of the old file)."""
+    rep = ctx.rep
+    mod = ctx.repo.module(URDF)
+    READS = {"from_xml_file", "from_xml_string", "open", "parse", "read_text", "read", "fromstring", "load"}
+    n = 0
+    for q, fn in mod.defs().items():
+        if not isinstance(fn, ast.FunctionDef):
+            continue
+        reads = [c for c in ast.walk(fn) if isinstance(c, ast.Call) and (dotted(c.func) or "").split(".")[-1] in READS]
+        if not reads:
+            continue
+        n += 1
+        C = f"{URDF}:{q}"
+        decos = [d for d in fn.decorator_list if (dotted(d.func if isinstance(d, ast.Call) else d) or "").split(".")[-1] in ("lru_cache", "cache", "cached", "cachedmethod", "memoize")]
+        if decos:
+            rep.bad(rule, C, decos[0], f"`@{norm_src(decos[0])}` memoises `{fn.name}`, which reads the description (`{norm_src(reads[0])[:50]}`), by its arguments (the path): a file that is written "
+                    "again under the same path is imported as the robot it used to describe - constraints and assembly are satisfied, poses, joint types and masses are those of the old file",
+                    f"{URDF}:{fn.lineno}")
+        else:
+            rep.ok(rule, C, f"`{norm_src(reads[0])[:50]}` is executed on every import")
+    if n < 1:
+        rep.ok(rule, URDF, "no function that reads the description found (no verdict)", verdict="unknown", trivial=True)
+
+
 def requested_coordinate_verbatim(ctx, rule="C28.R14"):
     """"reports the requested joint coordinates": Revolute reports angle0 + accumulated rotation, so the importer has to hand over the
     requested angle unchanged.  The rotation built from it is 2 pi periodic - poses and constraints cannot tell a wrapped angle from the
@@ -472,6 +499,8 @@ def requested_coordinate_verbatim(ctx, rule="C28.R14"):
 
 def run(ctx):
     rep = ctx.rep
+    rep.rule("C28.R15", "the importer builds the system of the robot the file describes NOW: no function of the URDF module that reads or parses the file is memoised (a cache keyed by the path returns the robot that used to be in the file)", 1)
+    parse_not_memoised(ctx)
     rep.rule("C28.R14", "the joint coordinate handed to the joint object (angle0 of revolute / continuous joints) is the requested value itself: every definition that reaches the hand-off is the request, its default or a type conversion - no wrapping, offset or scaling", 1)
     requested_coordinate_verbatim(ctx)
     rep.rule("C28.R1", "joint constructor conformance per branch", 4)
@@ -735,4 +764,10 @@ MUTANTS += [
 NEUTRAL += [
     dict(id="c28-n-r14", canary=True, what="revolute branch: requested angle read through np.float64", file=URDF,
          old="            angle = float(configuration[joint.name])\n", new="            angle = np.float64(configuration[joint.name])\n"),
+]
+
+MUTANTS += [
+    dict(id="c28-r15-seed", canary=True, what="[seeded by sub-agent] the URDF parse step is memoised with functools.lru_cache keyed by the resolved path", file=URDF,
+         edits=[(URDF, "\ndef system_from_urdf(", "\nfrom functools import lru_cache\n\n\n@lru_cache(maxsize=None)\ndef parse_urdf(file_path):\n    return URDF.from_xml_file(file_path)\n\n\ndef system_from_urdf("),
+                (URDF, "    urdf = URDF.from_xml_file(file_path)\n", "    urdf = parse_urdf(str(file_path))\n")], expect="C28.R15"),
 ]
